@@ -34,6 +34,16 @@ func parseTextDescription(data []byte) (TextDescription, error) {
 		return desc, err
 	}
 
+	// The count includes the terminating null. A count of zero means there
+	// is no ASCII description; a count larger than the remaining tag data
+	// cannot be satisfied and must not size the buffer.
+	if asciiCount == 0 {
+		return desc, nil
+	}
+	if int64(asciiCount) > int64(reader.Len()) {
+		return desc, fmt.Errorf("text description length %d exceeds tag data length", asciiCount)
+	}
+
 	asciiBytes := make([]byte, asciiCount-1)
 	for i := 0; i < len(asciiBytes); i++ {
 		asciiBytes[i], err = reader.ReadByte()
